@@ -203,6 +203,22 @@ func Load(repo, fixDir string) (*Prog, error) {
 			}
 		}
 	}
+	// declared functions (incl. generic origins, which AllFunctions does not enumerate) and their closures
+	for _, pk := range p.Pkgs {
+		for _, obj := range pk.TypesInfo.Defs {
+			fo, ok := obj.(*types.Func)
+			if !ok {
+				continue
+			}
+			fn := prog.FuncValue(fo)
+			if fn == nil || fn.Blocks == nil {
+				continue
+			}
+			for _, f := range withAnons(fn) {
+				p.AllFuncs[f] = true
+			}
+		}
+	}
 	if len(p.AllFuncs) < 5000 {
 		return nil, fmt.Errorf("only %d function bodies (<5000): incomplete build", len(p.AllFuncs))
 	}
@@ -214,6 +230,9 @@ func Load(repo, fixDir string) (*Prog, error) {
 func (p *Prog) CallGraph() *callgraph.Graph {
 	if p.cg == nil {
 		all := ssautil.AllFunctions(p.SSA)
+		for f := range p.AllFuncs { // generic origins are not enumerated by AllFunctions
+			all[f] = true
+		}
 		p.cg = vta.CallGraph(all, cha.CallGraph(p.SSA))
 	}
 	return p.cg
